@@ -209,6 +209,15 @@ def do_unit(unit, ucfg, repo, wdir, tier, prop):
     fails, und = classify(vr["diags"], regions, src_name)
     if vres.get("encountered-vir-error") or (not vres.get("success") and not fails and not und):
         und.append({"message": "verus front-end error (rc=%s): %s" % (vr["rc"], vr["raw_err"][-1500:])})
+    # canaries: regions named mustfail_* contain lemmas that MUST NOT verify (e.g. `requires cr(v) ensures false`);
+    # if one verifies, a hypothesis or an axiom set is contradictory and every proof in the unit is vacuous
+    canaries = [r for r in regions if r["kind"] == "region" and r["name"].startswith("mustfail_")]
+    hit = set(f["region"] for f in fails if f["region"] and f["region"].startswith("mustfail_"))
+    fails = [f for f in fails if not (f["region"] or "").startswith("mustfail_")]
+    for c in canaries:
+        if c["name"] not in hit and c.get("mode") != "assume":
+            und.append({"message": "vacuity canary %s was PROVED: hypotheses/axioms are contradictory" % c["name"]})
+    R["canaries"] = {"expected_to_fail": [c["name"] for c in canaries], "failed_as_expected": sorted(hit)}
     R["fails"] = fails
     R["undecided"] = und
     R["verified_items"] = vres.get("verified", 0)
@@ -456,6 +465,7 @@ def main():
             "samples": samples,
             "rewrite_rules_fired": {r["unit"]: r.get("rules_fired", {}) for r in results},
             "vacuity": {r["unit"]: r.get("vacuity") for r in results},
+            "vacuity_canaries": {r["unit"]: r.get("canaries") for r in results},
             "units": [{"unit": r["unit"], "status": r["status"], "verified_items": r.get("verified_items"), "wall_s": r["wall_s"], "smt_ms": r.get("smt_ms")} for r in results],
             "smt_ms_property_functions": smt_ms,
             "kani": kani_res,
